@@ -1,5 +1,5 @@
 (* C08 — comments, whitespace and letter case never change what is parsed (partial). *)
-From Secs Require Import Ast Fill Msg Lexer Parser SmlNumbers SmlProofs LexProofs ParseProofs LayoutProofs OffsetProofs LexPrinted CaseProofs.
+From Secs Require Import Ast Fill Msg Lexer Parser SmlNumbers SmlProofs LexProofs ParseProofs LayoutProofs OffsetProofs LexPrinted CaseProofs LexNames GapProofs.
 Open Scope Z_scope.
 
 (* any amount and kind of white space (blanks, tabs, CR, LF) in front of the
@@ -109,8 +109,50 @@ Proof.
   repeat split; congruence.
 Qed.
 
-(* C08_gap_partial: gaps in front of the NEXT token are covered by
-   C08_whitespace and C08_comment; that a gap after a token does not change
-   that token (locality of the seven prefix matchers under what follows) is
-   decided by the metamorphic pairs of suite C08 on the library and by the
-   token-level correspondence with the lexer model (proved for printed texts: C04). *)
+(* what FOLLOWS a token does not change the token: if the text [m] is lexed as
+   exactly one token (any token but a comment: a stream/function code, a name,
+   a number in any base, a variable with indices, a size spread over several
+   lines, a quoted string, ...), then [m] followed by any white-space byte and
+   any text is lexed as the same token, with the lexer left in the same state in
+   front of that white space — every matcher, the rune decoder and the name
+   scanner commute with appending white space.  Together with C08_whitespace and
+   C08_comment (what PRECEDES a token) the amount and kind of white space
+   between two tokens is irrelevant to both. *)
+Theorem C08_token_ignores_what_follows : forall alnum st m tok st' o' off d y,
+  lex_step1 alnum st m off = LEmit tok st' [] o' -> t_typ tok <> TComment -> is_ws d = true ->
+  lex_step1 alnum st (m ++ d :: y) off = LEmit tok st' (d :: y) o'.
+Proof. exact token_then_ws. Qed.
+Print Assumptions C08_token_ignores_what_follows.
+
+Example C08_gap_premises : forall alnum off y,
+  lex_step1 alnum LText (B"abc[12][3]"%string ++ x09 :: y) off = LEmit (mk TVariable (B"abc[12][3]"%string) off) LText (x09 :: y) (off + 3 + 7) /\
+  lex_step1 alnum LText (B"-0x1F"%string ++ x0d :: y) off = LEmit (mk TNumber (B"-0x1F"%string) off) LText (x0d :: y) (off + 5) /\
+  lex_step1 alnum LText ([x5b; x20; x31; x0a; x2e; x2e; x32; x5d] ++ x20 :: y) off =
+    LEmit (mk TItemSize (B"[1..2]"%string) off) LText (x20 :: y) (off + 8).
+Proof. exact gap_examples. Qed.
+
+(* WHOLE TEXTS.  [tokseq st ms ts st2]: the texts [ms] are lexed one after the
+   other as exactly one token each (no comment among them), giving the tokens
+   [ts] (offsets erased).  Woven with ANY two families of gaps — non-empty runs
+   of blanks, tabs, CR and LF — and followed by anything, both texts are lexed
+   into the same tokens up to their offsets, and the lexer ends in the same
+   state.  By C08_positions_irrelevant the parser then returns the same
+   messages and the same diagnostics (kinds and tokens), whose positions are
+   recomputed from the offsets (C08_positions). *)
+Theorem C08_layout_independent : forall alnum st ms ts st2 gs gs' rest rest' off off',
+  tokseq alnum st ms ts st2 -> length gs = length ms -> length gs' = length ms -> Forall gap gs -> Forall gap gs' ->
+  exists t1 t2 o1 o2,
+    lexes alnum st (weave ms gs ++ rest) off t1 st2 rest o1 /\
+    lexes alnum st (weave ms gs' ++ rest') off' t2 st2 rest' o2 /\ map zoff t1 = map zoff t2.
+Proof. exact layout_independent. Qed.
+Print Assumptions C08_layout_independent.
+
+Example C08_layout_premises : forall alnum,
+  exists ts, tokseq alnum LHeader [B"S1F1"; B"W"; B"<"; B"U1"; B"7"; B"x"; B">"]%string ts LText /\
+             map t_typ ts = [TStreamFunction; TWaitBit; TLAB; TItemType; TNumber; TVariable; TRAB].
+Proof. exact tokseq_example. Qed.
+
+(* C08_remaining: comments inside the gaps of C08_layout_independent (covered
+   step by step by C08_comment) and tokens written without any white space
+   between them are not part of the whole-text statement; suite C08 compares
+   such texts on the library and on the model. *)
